@@ -48,6 +48,15 @@ func main() {
 	}
 	prop := os.Args[1]
 	deprecation.Noticer = io.Discard
+	if prop == "OP" {
+		// one operation on a freshly parsed configuration in a process of its own: harness OP <yaml file> <operation>
+		doc, err := os.ReadFile(os.Args[2])
+		must(err)
+		cfg, err := parseDoc(string(doc))
+		must(err)
+		fmt.Print(runOp(cfg, os.Args[3]))
+		return
+	}
 	fl := flag.NewFlagSet(prop, flag.ExitOnError)
 	tier := fl.String("tier", "quick", "quick|thorough")
 	seed := fl.Int64("seed", 1, "PRNG seed")
@@ -83,6 +92,8 @@ func main() {
 		cmdGen(*out)
 	case "C05":
 		cmdC05(*tier, *seed, *out, *stats, *replay)
+	case "C11":
+		cmdC11(*tier, *seed, *out, *stats, *replay)
 	case "C13":
 		cmdC13(*tier, *seed, *out, *stats, *replay)
 	case "C16", "C17":
